@@ -62,7 +62,7 @@ Definition step_f (lim : limits) (o : oracle) (se : fcfg) (buf : bytes) : (fcfg 
         | None =>
           let limit := match lines s with [] => max_line lim | _ => max_field lim end in
           if has_byte 10 buf then inr (s, evs, RErr EBadMessage)
-          else if limit <? lenN buf then inr (s, evs, RErr ELineTooLong)
+          else if limit <? tail_len tail_check_discounts_cr buf then inr (s, evs, RErr ELineTooLong)
           else inr (mkS (lines s) buf None (upgraded s) (pending_upgrade s) (should_close s) (in_flight s),
                     evs, ROk [])
         end
@@ -172,6 +172,15 @@ Definition wf (s : pst) : Prop :=
 (* the buffered partial chunk-size / trailer line passes the length re-check made by the next call *)
 Definition tail_ok (lim : limits) (s : pst) : bool :=
   match payload s with Some p => negb (too_long lim p) | None => true end.
+
+(* ... or the bytes b that follow contain the end of that line: then the over-long line is rejected
+   with LineTooLong whether it is seen in pieces or at once *)
+Definition line_end_ok (lim : limits) (s : pst) (b : bytes) : bool :=
+  tail_ok lim s ||
+  match payload s with
+  | Some p => match find_crlf (ctail p ++ b) with Some _ => true | None => false end
+  | None => true
+  end.
 
 Definition prepend (lo : bytes) (r : outcome) : outcome :=
   match r with ROk l => ROk (lo ++ l) | _ => r end.
@@ -350,6 +359,111 @@ Proof.
   rewrite (feed_payload_chunked _ _ _ _ _ Ek), H. reflexivity.
 Qed.
 
+(* a stop that leaves an over-long partial chunk line buffered (the next call raises LineTooLong) *)
+Lemma fstop_long lim o s evs x s1 acc1 lo1 :
+  inv_f (s, evs) -> step_f lim o (s, evs) x = inr (s1, acc1, ROk lo1) -> tail_ok lim s1 = false ->
+  exists p', payload s1 = Some p' /\ tail s1 = [] /\ lo1 = [] /\
+  forall c y f, (meas mu_f (s, evs) (x ++ c :: y) < f)%nat ->
+    feed lim o s1 (c :: y) acc1 = (clr s1, ev_err ELineTooLong acc1, RErr ELineTooLong) /\
+    ((exists st, floop lim o f (s, evs) (x ++ c :: y) = (st, ev_err ELineTooLong acc1, RErr ELineTooLong)) \/
+     (find_crlf (ctail p' ++ c :: y) = None /\
+      ((exists st, floop lim o f (s, evs) (x ++ c :: y) = (st, ev_err ETransferEncoding acc1, RErr ETransferEncoding)) \/
+       (exists st, floop lim o f (s, evs) (x ++ c :: y) = (st, acc1, ROk []) /\ tail_ok lim st = false /\ wf st)))).
+Proof.
+  intros [Ht Hp] H Hok. cbn [fst] in Ht, Hp. unfold tail_ok in Hok.
+  assert (Htwo : forall p' c y, payload s1 = Some p' -> tail s1 = [] -> too_long lim p' = true ->
+            feed lim o s1 (c :: y) acc1 = (clr s1, ev_err ELineTooLong acc1, RErr ELineTooLong)).
+  { intros p' c y Ep' Ht1 Htl. rewrite feed_floop, Ht1. cbn [app].
+    replace (2 * length (c :: y) + 2)%nat with (S (2 * length (c :: y) + 1)) by lia.
+    unfold floop. cbn [loop]. unfold clr at 1. cbn [step_f payload]. rewrite Ep'.
+    rewrite (feed_payload_too_long _ _ _ _ Htl), fatal_all. unfold clr. rewrite Ep'. reflexivity. }
+  destruct x as [|a r].
+  { cbn [step_f] in H. inversion H; subst. clear H.
+    destruct (payload s1) as [p'|] eqn:Ep; [|discriminate]. apply negb_false_iff in Hok.
+    exists p'. repeat split; try reflexivity; try assumption.
+    - apply (Htwo p'); [reflexivity|exact Ht|exact Hok].
+    - left. destruct f as [|f]; [lia|]. unfold floop. cbn [loop app step_f]. rewrite Ep.
+      rewrite (feed_payload_too_long _ _ _ _ Hok), fatal_all. eauto. }
+  cbn [step_f] in H. unfold pwf in Hp.
+  destruct (payload s) as [p|] eqn:Ep.
+  - destruct (feed_payload lim p (a :: r) evs) as [p' e1|rest e1|e e1] eqn:E; [|discriminate|].
+    2:{ rewrite fatal_all in H. discriminate. }
+    inversion H; subst. clear H. cbn [payload] in Hok. apply negb_false_iff in Hok.
+    exists p'. cbn [payload tail]. repeat split; try reflexivity; try assumption.
+    + apply (Htwo p'); [reflexivity|exact Ht|exact Hok].
+    + destruct f as [|f]; [lia|]. unfold floop. cbn [loop]. cbn [step_f app]. rewrite Ep.
+      pose proof (feed_payload_need_long lim p (a :: r) evs p' acc1 (c :: y) Hp E Hok ltac:(discriminate)) as Hl.
+      cbn [app] in Hl.
+      destruct (find_crlf (ctail p' ++ c :: y)) as [x0|].
+      * rewrite Hl, fatal_all. left. eauto.
+      * right. split; [reflexivity|]. destruct (has_byte 10 (ctail p' ++ c :: y)).
+        -- rewrite Hl, fatal_all. left. eauto.
+        -- destruct Hl as (p'' & Hl & Ht''). rewrite Hl. right. eexists. split; [reflexivity|].
+           split; [unfold tail_ok; cbn [payload]; rewrite Ht''; reflexivity|].
+           split; [intro Hn; cbn [tail] in Hn; rewrite Ht in Hn; now elim Hn|].
+           unfold pwf. cbn [payload].
+           exact (proj1 (feed_payload_need _ _ _ _ _ _ Hp Hl)).
+  - exfalso. destruct (upgraded s). { inversion H; subst. rewrite Ep in Hok. discriminate. }
+    destruct ((0 <? max_queue lim) && (max_queue lim <=? in_flight s)). { inversion H; subst. discriminate. }
+    destruct (find_crlf (a :: r)) as [[line rest]|]; repeat (dmH H; try discriminate); inversion H; subst; discriminate.
+Qed.
+
+(* two reads, no hypothesis on the state between them: either the results are observably equal, or
+   the second read raised LineTooLong on an over-long partial chunk-size / trailer line buffered by
+   the first, whose end has not arrived yet: then one read of the same bytes raises
+   TransferEncodingError (a bare LF in that line) or returns normally with the same messages, still
+   buffering the over-long line (so that whatever follows is rejected): rejection noticed earlier *)
+Theorem feed_split_full lim o s a b acc s1 acc1 lo1 :
+  wf s ->
+  feed lim o s a acc = (s1, acc1, ROk lo1) ->
+  obs (feed lim o s (a ++ b) acc) =
+  obs (let '(s2, acc2, r) := feed lim o s1 b acc1 in (s2, acc2, prepend lo1 r)) \/
+  (tail_ok lim s1 = false /\
+   (exists s2, feed lim o s1 b acc1 = (s2, ev_err ELineTooLong acc1, RErr ELineTooLong)) /\
+   (exists p', payload s1 = Some p' /\ find_crlf (ctail p' ++ b) = None) /\
+   ((exists s3, feed lim o s (a ++ b) acc = (s3, ev_err ETransferEncoding acc1, RErr ETransferEncoding)) \/
+    (exists s3, feed lim o s (a ++ b) acc = (s3, acc1, ROk []) /\ tail_ok lim s3 = false /\ wf s3))).
+Proof.
+  intros Hw H. destruct (tail_ok lim s1) eqn:Hok; [left; apply feed_split; assumption|].
+  destruct (feed_stop lim o s a acc Hw) as (sk & ek & xk & E & Hi & Hs). rewrite H in Hs.
+  destruct (fstop_long _ _ _ _ _ _ _ _ Hi Hs Hok) as (p' & Ep' & Ht1 & -> & Hres).
+  destruct b as [|c y].
+  - left. rewrite app_nil_r, H. rewrite feed_floop, Ht1. cbn. rewrite (clr_id _ Ht1). reflexivity.
+  - rewrite (feed_floop lim o s (a ++ c :: y)). rewrite app_assoc. unfold floop.
+    rewrite (loop_app _ _ (step_f lim o) fdflt mu_f inv_f (step_f_dec lim o) (step_f_stable lim o)
+               _ _ _ (c :: y) _ (S (meas mu_f (sk, ek) (xk ++ c :: y))) (inv_f_clr s acc Hw) (meas_f_fuel _ _)
+               (meas_f_fuel _ _) _ _ E ltac:(lia)).
+    destruct (Hres c y (S (meas mu_f (sk, ek) (xk ++ c :: y))) ltac:(lia)) as [Htwo Hone].
+    unfold floop in Hone.
+    destruct Hone as [[st Ho]|[Hnone [[st Ho]|(st & Ho & Hb & Hwf)]]].
+    + left. rewrite Ho, Htwo. reflexivity.
+    + right. rewrite Ho. split; [reflexivity|]. split; [eauto|]. split; [eauto|]. left. eauto.
+    + right. rewrite Ho. split; [reflexivity|]. split; [eauto|]. split; [eauto|]. right. eauto.
+Qed.
+
+Theorem feed_split_weak lim o s a b acc s1 acc1 lo1 :
+  wf s ->
+  feed lim o s a acc = (s1, acc1, ROk lo1) ->
+  line_end_ok lim s1 b = true ->
+  obs (feed lim o s (a ++ b) acc) =
+  obs (let '(s2, acc2, r) := feed lim o s1 b acc1 in (s2, acc2, prepend lo1 r)).
+Proof.
+  intros Hw H Hok. destruct (feed_split_full lim o s a b acc s1 acc1 lo1 Hw H) as [Heq|(Ht & _ & (p' & Ep & Hn) & _)];
+    [exact Heq|].
+  unfold line_end_ok in Hok. rewrite Ht, Ep, Hn in Hok. discriminate.
+Qed.
+
+Lemma line_end_ok_app lim s b more : line_end_ok lim s b = true -> line_end_ok lim s (b ++ more) = true.
+Proof.
+  unfold line_end_ok. destruct (tail_ok lim s); [reflexivity|]. cbn [orb].
+  destruct (payload s) as [p|]; [|reflexivity].
+  destruct (find_crlf (ctail p ++ b)) as [[l r]|] eqn:E; [|discriminate]. intros _.
+  rewrite app_assoc, (find_crlf_app _ more _ _ E). reflexivity.
+Qed.
+
+Lemma tail_ok_line_end lim s b : tail_ok lim s = true -> line_end_ok lim s b = true.
+Proof. unfold line_end_ok. intros ->. reflexivity. Qed.
+
 Theorem feed_split_accept lim o s a b acc s1 acc1 lo1 s2 acc2 lo2 :
   wf s ->
   feed lim o s a acc = (s1, acc1, ROk lo1) ->
@@ -493,14 +607,18 @@ Fixpoint consumed (lim : limits) (o : oracle) (s : pst) (segs : list bytes) (a :
   end.
 
 (* every parser state at a read boundary that is followed by another read passes the length
-   re-check of its buffered partial chunk-size / trailer line *)
+   re-check of its buffered partial chunk-size / trailer line, or the reads consumed after it
+   contain the end of that line *)
 Fixpoint boundaries_ok (lim : limits) (o : oracle) (s : pst) (segs : list bytes) (a : acc) : bool :=
   match segs with
   | [] => true
   | d :: segs' =>
     match feed lim o s d a with
     | (s', a', ROk _) =>
-      match segs' with [] => true | _ => tail_ok lim s' && boundaries_ok lim o s' segs' a' end
+      match segs' with
+      | [] => true
+      | _ => line_end_ok lim s' (concat (consumed lim o s' segs' a')) && boundaries_ok lim o s' segs' a'
+      end
     | _ => true
     end
   end.
@@ -543,9 +661,9 @@ Proof.
     rewrite (IH lim o s1 e a1 (lo ++ l1) Hw1 Hb).
     assert (HC : exists C', concat (consumed lim o s1 (e :: segs) a1) = e ++ C').
     { rewrite consumed_cons. destruct (feed lim o s1 e a1) as [[s2 a2] r2]. destruct r2; cbn [concat]; eauto. }
-    destruct HC as [C' HC]. rewrite concat_cons, HC, !run_segs_single.
+    destruct HC as [C' HC]. rewrite HC in Hok. rewrite concat_cons, HC, !run_segs_single.
     rewrite <- lift_lift. apply obs_lift. symmetry.
-    exact (feed_split lim o s d (e ++ C') acc s1 a1 l1 Hw E1 Hok).
+    exact (feed_split_weak lim o s d (e ++ C') acc s1 a1 l1 Hw E1 Hok).
 Qed.
 
 Theorem seg_consumed_obs lim o segs s acc lo :
